@@ -313,7 +313,8 @@ def verify_unit(unit_name, repo=None, use_cache=True, keep=True, canary=True):
         res.cache = 'miss'
     else:
         res.cache = 'hit'
-    res.checker_cmd = cached['cmd']
+    # the cache is keyed by the generated text: a hit may have been produced under another generation directory; report the current one
+    res.checker_cmd = re.sub(r'verus \S*/([A-Za-z0-9_]+\.rs)', lambda m: 'verus ' + os.path.join(GEN_DIR, m.group(1)), cached['cmd'])
     out, diags = cached['out'], cached['diags']
     res.solver_s = cached['dt']
     if out is None:
